@@ -507,7 +507,8 @@ func genReg(sd *SchemaDesc, actual map[uint64]string) []byte {
 			fmt.Fprintf(&b, "\t\tNewRoot: func(s *capnp.Segment) (interface{}, error) { return %s.NewRoot%s(s) },\n", g, s.GoName)
 			fmt.Fprintf(&b, "\t\tReadRoot: func(m *capnp.Message) (interface{}, error) { return %s.ReadRoot%s(m) },\n", g, s.GoName)
 			fmt.Fprintf(&b, "\t\tNewList: func(s *capnp.Segment, n int32) (interface{}, error) { return %s.New%s_List(s, n) },\n", g, s.GoName)
-			fmt.Fprintf(&b, "\t\tWrap: func(s capnp.Struct) interface{} { return %s.%s{Struct: s} },\n\t})\n", g, s.GoName)
+			fmt.Fprintf(&b, "\t\tWrap: func(s capnp.Struct) interface{} { return %s.%s{Struct: s} },\n", g, s.GoName)
+			fmt.Fprintf(&b, "\t\tWrapFuture: func(f *capnp.Future) interface{} { return %s.%s_Future{Future: f} },\n\t})\n", g, s.GoName)
 		}
 		if s.DiscCount > 0 {
 			fmt.Fprintf(&b, "\tregWhich(%#x, map[string]uint16{", s.ID)
